@@ -15,6 +15,8 @@ pub struct HistProp {
     pub classes: fn(&Facts, &mut Vec<&'static str>),
     pub epoll_each_step: bool,
     pub workers: usize,
+    /// a fixed, constructed list of cases run completely in both tiers before the random search (sub-check "table")
+    pub table: Option<fn() -> Vec<HistCase>>,
 }
 
 pub fn run_case_for(hp: &HistProp, case: &HistCase) -> CaseOutcome {
@@ -37,6 +39,31 @@ pub fn hist_check(ctx: &CheckCtx, hp: &HistProp) -> Option<Found> {
         if let Some(f) = ctx.run_replays::<HistCase, _>(name, |c| run_case_for(hp, c)) {
             return Some(f);
         }
+    }
+    if let Some(table) = hp.table {
+        if let Some(f) = ctx.run_replays::<HistCase, _>("table", |c| run_case_for(hp, c)) {
+            return Some(f);
+        }
+        let cases = table();
+        let n = cases.len();
+        for c in &cases {
+            let (info, v) = run_case_for(hp, c);
+            ctx.col.record(&info, || serde_json::to_value(c).unwrap_or_default());
+            if let Some(v) = v {
+                if ctx.known_open(&v.sig) {
+                    ctx.col.add_excluded(1);
+                    continue;
+                }
+                // same discipline as the search: confirm twice more
+                let again = (0..2).filter(|_| matches!(run_case_for(hp, c).1, Some(ref v2) if v2.rule == v.rule)).count();
+                if again == 2 {
+                    return Some(Found { sub: "table".into(), violation: v, case: serde_json::to_value(c).unwrap_or_default(), replay_path: None });
+                }
+                ctx.infra_error(format!("table: failure {} did not reproduce: {}", v.rule, v.detail));
+            }
+        }
+        ctx.col.set_sub("table", serde_json::json!({ "cases": n }));
+        ctx.col.exhaustive(&format!("constructed table of {n} single-operation callback programs (see the rule text)"));
     }
     for (name, profile, q, t) in &profiles {
         let cases = match ctx.tier {
@@ -94,6 +121,7 @@ fn c01_profiles() -> Vec<(&'static str, Profile, u32, u32)> {
     p.k_comp = 4;
     p.probe_lifecycle_pct = 0;
     p.o_token = 10;
+    p.o_async = 4;
     p.max_ops = 40;
     let mut p2 = p.clone();
     // slot-reuse heavy: few kinds, many remove/insert
@@ -101,7 +129,21 @@ fn c01_profiles() -> Vec<(&'static str, Profile, u32, u32)> {
     p2.o_token = 14;
     p2.k_timer = 1;
     p2.max_ops = 50;
-    vec![("hist", p, 48000, 1000000), ("reuse", p2, 24000, 500000)]
+    // adapters that are armed, made ready and released from another callback of the same batch, with immediate slot reuse
+    let mut p3 = Profile::base();
+    p3.k_ping = 6;
+    p3.k_gen = 2;
+    p3.k_chan = 1;
+    p3.k_timer = 1;
+    p3.k_probe = 0;
+    p3.k_comp = 0;
+    p3.o_async = 16;
+    p3.o_insert = 8;
+    p3.o_cause = 10;
+    p3.o_token = 4;
+    p3.o_handle = 0;
+    p3.max_ops = 30;
+    vec![("hist", p, 48000, 1000000), ("reuse", p2, 24000, 500000), ("adapters", p3, 24000, 500000)]
 }
 
 pub static C01: HistProp = HistProp {
@@ -119,6 +161,7 @@ pub static C01: HistProp = HistProp {
     },
     epoll_each_step: false,
     workers: 8,
+    table: None,
 };
 
 // ------------------------------------------------------------------------------------------ C02
@@ -161,6 +204,7 @@ pub static C02: HistProp = HistProp {
     },
     epoll_each_step: false,
     workers: 8,
+    table: None,
 };
 
 // ------------------------------------------------------------------------------------------ C05
@@ -184,6 +228,7 @@ fn c05_profiles() -> Vec<(&'static str, Profile, u32, u32)> {
     p.max_ops = 40;
     p.timer_future_pct = 20;
     p.max_timeout_ms = 3;
+    p.o_wakeup = 2;
     p.err_pct = 3;
     vec![("hist", p, 40000, 600000)]
 }
@@ -206,6 +251,7 @@ pub static C05: HistProp = HistProp {
     },
     epoll_each_step: false,
     workers: 8,
+    table: None,
 };
 
 // ------------------------------------------------------------------------------------------ C06
@@ -243,6 +289,7 @@ pub static C06: HistProp = HistProp {
     },
     epoll_each_step: false,
     workers: 8,
+    table: None,
 };
 
 // ------------------------------------------------------------------------------------------ C07
@@ -279,6 +326,7 @@ pub static C07: HistProp = HistProp {
     },
     epoll_each_step: false,
     workers: 8,
+    table: None,
 };
 
 // ------------------------------------------------------------------------------------------ C08
@@ -286,7 +334,7 @@ pub static C07: HistProp = HistProp {
 pub static C08_META: PropMeta = PropMeta {
     id: "C08",
     level: "exploration",
-    rule: "cases: callback/idle programs of 1..5 handle operations (insert_source, register_dispatcher, insert_idle, remove, disable, update, enable of another source, ping/send on calloop handles, timer re-arm) aimed at the running source, another idle source, a source with an event in the same batch, a stale token or a fresh insert, nested to depth 3, for every source kind as runner and target. oracle: no panic anywhere (caught at the dispatch boundary, attributed by location), every in-callback operation has the model effect it has outside a dispatch (result class, register/unregister calls, later deliveries), self-directed disable/update deferred to the end of the running event processing. non-trivial: a program touching the running source itself or a source whose event is owed in the same dispatch, or nesting depth >= 2; distinct by case fingerprint",
+    rule: "cases: callback/idle programs of 1..5 handle operations (insert_source, register_dispatcher, insert_idle, remove, disable, update, enable of another source, ping/send on calloop handles, timer re-arm) aimed at the running source, another idle source, a source with an event in the same batch, a stale token or a fresh insert, nested to depth 3, for every source kind as runner and target; plus, in both tiers, the complete constructed table of single-operation programs: 7 runners (ping, channel, timer, generic, lifecycle probe, composite, idle callback) x {remove, disable, enable, update} x {self, idle source, source with an event in the same batch, stale token, source inserted one step earlier in the same program} (enable of the running source excluded as documented misuse), insertion of each of 6 source kinds, insert/cancel idle, ping/clone/drop handle, adapt_io, kind-specific re-arming, each x the runner's 4 post-actions. oracle: no panic anywhere (caught at the dispatch boundary, attributed by location), every in-callback operation has the model effect it has outside a dispatch (result class, register/unregister calls, later deliveries), self-directed disable/update deferred to the end of the running event processing. non-trivial: a program touching the running source itself or a source whose event is owed in the same dispatch, or nesting depth >= 2; distinct by case fingerprint",
     assumptions: ASSUME,
 };
 
@@ -306,6 +354,121 @@ fn c08_profiles() -> Vec<(&'static str, Profile, u32, u32)> {
     vec![("hist", p, 40000, 750000)]
 }
 
+/// Index value that `ops::pick` maps onto entry `k` of a table of `len` entries.
+fn enc(k: usize, len: usize) -> u16 {
+    ((((k as u32) << 16) + len as u32 - 1) / len as u32) as u16
+}
+
+/// The full table of length-1 callback programs: runner kind x operation x target relation x post-action.
+/// Layout of every case: [runner (token 0; absent for the idle runner), idle ping, in-batch ping, ping that is
+/// removed again (stale token)], a cause for the runner and for the in-batch ping, three dispatches.
+fn c08_table() -> Vec<HistCase> {
+    use crate::hist::ops::{CKind, FdKind, Kind, Op, PostRet, Prog, TRet};
+    let runners: Vec<Option<Kind>> = vec![
+        Some(Kind::Ping),
+        Some(Kind::Chan { bound: None }),
+        Some(Kind::Timer { delta_us: Some(-1000) }),
+        Some(Kind::Gen { fd: FdKind::EventFd, interest: 1, mode: 0 }),
+        Some(Kind::Probe { subs: 2, lifecycle: true, synthetic: None, fail_reg: None }),
+        Some(Kind::Comp { children: vec![(CKind::Ping, false), (CKind::Gen, false)] }),
+        None, // an idle callback runs the program
+    ];
+    let insertable = [
+        Kind::Ping,
+        Kind::Chan { bound: Some(1) },
+        Kind::Timer { delta_us: Some(-500) },
+        Kind::Gen { fd: FdKind::Sock, interest: 3, mode: 1 },
+        Kind::Probe { subs: 1, lifecycle: true, synthetic: Some(0), fail_reg: None },
+        Kind::Comp { children: vec![(CKind::Timer { delta_us: -100 }, true), (CKind::Ping, false)] },
+    ];
+    let plain = |kind: Kind| Op::Insert { kind, script: vec![], via_disp: false };
+    let mut out = Vec::new();
+    let mut flip = false;
+    for runner in &runners {
+        let has_runner = runner.is_some();
+        let ntok = if has_runner { 4 } else { 3 };
+        let base = if has_runner { 1 } else { 0 };
+        let runner_is_ping = matches!(runner, Some(Kind::Ping));
+        let ping_off = if runner_is_ping { 1 } else { 0 };
+        // programs: (ops, touches which relation)
+        let mut programs: Vec<Vec<Op>> = Vec::new();
+        for which in 0..4u8 {
+            let mk = |tok: u16| match which {
+                0 => Op::Remove { tok },
+                1 => Op::Disable { tok },
+                2 => Op::Enable { tok },
+                _ => Op::Update { tok },
+            };
+            if has_runner && which != 2 {
+                programs.push(vec![mk(enc(0, ntok))]); // self (enable of the running source is documented misuse)
+            }
+            programs.push(vec![mk(enc(base, ntok))]); // other, idle
+            programs.push(vec![mk(enc(base + 1, ntok))]); // other, event in the same batch
+            programs.push(vec![mk(enc(base + 2, ntok))]); // stale token
+            programs.push(vec![plain(Kind::Ping), mk(enc(ntok, ntok + 1))]); // fresh insert, then the op on it
+        }
+        for k in &insertable {
+            programs.push(vec![plain(k.clone())]);
+        }
+        programs.push(vec![Op::InsertIdle { prog: Box::new(Prog::plain()) }]);
+        programs.push(vec![Op::CancelIdle { idle: 0 }]);
+        programs.push(vec![Op::Ping { src: enc(ping_off, 3 + ping_off) }]); // ping the idle source
+        programs.push(vec![Op::Ping { src: enc(ping_off + 1, 3 + ping_off) }]); // ping the in-batch source again
+        programs.push(vec![Op::CloneHandle { src: 0 }]);
+        programs.push(vec![Op::DropHandle { src: 0 }]); // for a ping runner: the last handle of the running source
+        programs.push(vec![Op::Adapt { fd: 0, blocking: false }]);
+        match runner {
+            Some(Kind::Timer { .. }) => {
+                programs.push(vec![Op::SetDeadline { src: 0, delta_us: 500 }]);
+                programs.push(vec![Op::SetDeadline { src: 0, delta_us: -500 }]);
+            }
+            Some(Kind::Gen { .. }) => {
+                programs.push(vec![Op::SetInterest { src: 0, interest: 3, mode: 2 }]);
+                programs.push(vec![Op::PeerWrite { src: 0, n: 0 }]);
+                programs.push(vec![Op::OwnRead { src: 0, n: 0 }]);
+            }
+            Some(Kind::Chan { .. }) => {
+                programs.push(vec![Op::Send { src: 0, val: 9 }]);
+                programs.push(vec![Op::DropSender { src: 0 }]);
+            }
+            Some(Kind::Probe { .. }) => programs.push(vec![Op::ProbePing { src: 0, sub: 1 }]),
+            Some(Kind::Comp { .. }) => programs.push(vec![Op::CompPoke { src: 0, child: 1 }]),
+            _ => {}
+        }
+        for prog_ops in programs {
+            let posts: &[PostRet] = if has_runner { &[PostRet::Continue, PostRet::Reregister, PostRet::Disable, PostRet::Remove] } else { &[PostRet::Continue] };
+            for post in posts {
+                let prog = Prog { ops: prog_ops.clone(), post: *post, timer: TRet::Drop };
+                let mut ops: Vec<Op> = Vec::new();
+                if let Some(k) = runner {
+                    ops.push(Op::Insert { kind: k.clone(), script: vec![prog.clone(), Prog::plain()], via_disp: flip });
+                }
+                ops.push(plain(Kind::Ping));
+                ops.push(plain(Kind::Ping));
+                ops.push(plain(Kind::Ping));
+                ops.push(Op::Remove { tok: enc(base + 2, ntok) });
+                match runner {
+                    Some(Kind::Ping) => ops.push(Op::Ping { src: 0 }),
+                    Some(Kind::Chan { .. }) => ops.push(Op::Send { src: 0, val: 1 }),
+                    Some(Kind::Timer { .. }) => {}
+                    Some(Kind::Gen { .. }) => ops.push(Op::PeerWrite { src: 0, n: 0 }),
+                    Some(Kind::Probe { .. }) => ops.push(Op::ProbePing { src: 0, sub: 0 }),
+                    Some(Kind::Comp { .. }) => ops.push(Op::CompPoke { src: 0, child: 0 }),
+                    _ => ops.push(Op::InsertIdle { prog: Box::new(prog.clone()) }),
+                }
+                ops.push(Op::Ping { src: enc(ping_off + 1, 3 + ping_off) });
+                ops.push(Op::Dispatch { timeout_ms: 0 });
+                ops.push(Op::Ping { src: enc(ping_off, 3 + ping_off) });
+                ops.push(Op::Dispatch { timeout_ms: 0 });
+                ops.push(Op::Dispatch { timeout_ms: 0 });
+                out.push(HistCase { ops, loop_first: flip });
+                flip = !flip;
+            }
+        }
+    }
+    out
+}
+
 pub static C08: HistProp = HistProp {
     id: "C08",
     meta: &C08_META,
@@ -321,6 +484,7 @@ pub static C08: HistProp = HistProp {
     },
     epoll_each_step: false,
     workers: 8,
+    table: Some(c08_table),
 };
 
 // ------------------------------------------------------------------------------------------ C09
@@ -339,8 +503,8 @@ fn c09_profiles() -> Vec<(&'static str, Profile, u32, u32)> {
     p.err_pct = 8;
     p.o_token = 12;
     p.o_cause = 14;
-    p.k_probe = 2;
-    p.probe_lifecycle_pct = 30;
+    p.k_probe = 3;
+    p.probe_lifecycle_pct = 50;
     p.max_ops = 40;
     vec![("hist", p, 48000, 750000)]
 }
@@ -363,6 +527,7 @@ pub static C09: HistProp = HistProp {
     },
     epoll_each_step: false,
     workers: 8,
+    table: None,
 };
 
 // ------------------------------------------------------------------------------------------ C13
@@ -402,6 +567,7 @@ pub static C13: HistProp = HistProp {
     },
     epoll_each_step: false,
     workers: 8,
+    table: None,
 };
 
 // ------------------------------------------------------------------------------------------ C14
@@ -446,6 +612,7 @@ pub static C14: HistProp = HistProp {
     },
     epoll_each_step: false,
     workers: 8,
+    table: None,
 };
 
 // ------------------------------------------------------------------------------------------ C15
@@ -493,6 +660,7 @@ pub static C15: HistProp = HistProp {
     },
     epoll_each_step: true,
     workers: 8,
+    table: None,
 };
 
 // ------------------------------------------------------------------------------------------ C16
@@ -541,6 +709,7 @@ pub static C16: HistProp = HistProp {
     },
     epoll_each_step: true,
     workers: 8,
+    table: None,
 };
 
 pub fn all() -> Vec<&'static HistProp> {
